@@ -15,9 +15,6 @@ open MdIt.Url
 #check @nokeep_roundtrip
 #check @asciiset_spec
 #check @setFrom_spec
-#check @gen_asciiNew
-#check @gen_digits
-#check @gen_keep
 #check @default_set_exact
 #check @default_set_excludes
 #check @default_no_pct
@@ -37,9 +34,6 @@ open MdIt.Url
 #print axioms nokeep_roundtrip
 #print axioms asciiset_spec
 #print axioms setFrom_spec
-#print axioms gen_asciiNew
-#print axioms gen_digits
-#print axioms gen_keep
 #print axioms default_set_exact
 #print axioms default_set_excludes
 #print axioms default_no_pct
